@@ -3,11 +3,11 @@
  "name": "rsz_ss2_reserve",
  "props": ["C08", "C20"],
  "level": "U/iter",
- "tier": "wip",
+ "tier": "quick",
  "harness": "h_ss2_reserve",
  "includes": ["resize"],
  "loop_contracts": true,
- "unwind": 9,
+ "unwind": 12,
  "unwind_reason": "both loops of reserve_sparse_super2_last_group are cut by the in-place loop contracts VERIF_INV_RESERVE_SS2_GROUPS / _BLOCKS (invariant + decreases); the bound only serves instrumentation loops",
  "cbmc_flags": ["--object-bits", "12"],
  "backend": "cadical",
